@@ -8,7 +8,9 @@ VERIF = os.path.dirname(os.path.dirname(os.path.abspath(__file__)))
 NOTE_COMMON = (
     "Bounded: only the stated alphabets/lengths/depths are covered (small-scope argument in DESIGN.md section 5). Trusted base: "
     "CPython 3.12, the hand-written explorer in /verif/mc (self-tested), the reference model mc/refmodel.py (unit-tested, shares "
-    "no code with curies). Checks import /repo/src directly (asserted at start-up)."
+    "no code with curies). Checks import /repo/src directly (asserted at start-up). The text above describes the core enumeration; construction "
+    "modes (copies, loaders, derived and shared objects), call orders, argument kinds and special inputs added after rounds 6-10 of seeded changes and "
+    "three bug hunts are listed in DESIGN.md 12.4 / 12.6; the rule, bounds and counters of the evidence file are generated from the code and authoritative."
 )
 
 T = {
